@@ -28,4 +28,11 @@ TicksOK == \A me \in Meths : LET tk == Ticks(lo, Hi, me) IN
               /\ GapRatioOK(tk)
 CountBound == \A me \in Meths : LET tk == Ticks(lo, Hi, me) IN
               IF Short THEN Len(tk) \in {span[2], span[2] + 1} ELSE CountOK(tk, m)
+\* nice(): never inward, each end less than two tick steps (of the ticks of the original domain) outward, on a boundary of the unit
+MaxGapOf(tk) == CHOOSE g \in GapsOf(tk) : \A x \in GapsOf(tk) : DLe(x, g)
+NiceOK == \A me \in Meths : LET nl == NiceFloor(me, lo) nh == NiceCeil(me, Hi) tk == Ticks(lo, Hi, me) IN
+            /\ TLe(nl, lo) /\ TLe(Hi, nh)
+            /\ Len(tk) >= 2 => /\ DLt(Diff(lo, nl), Twice(MaxGapOf(tk)))
+                                /\ DLt(Diff(nh, Hi), Twice(MaxGapOf(tk)))
+            /\ me[1] # "ms" => IsBoundary(me[1], nl) /\ IsBoundary(me[1], nh)
 =============================================================================
